@@ -17,7 +17,7 @@ RULE = (
     "Non-trivial = >= 2 blocks, or a block within +-2 of the limit, or an oversize entry; distinct by case hash."
 )
 ASSUMPTIONS = ["nothing is demanded about WHICH error is raised when a block cannot be framed in one length byte"]
-REQUIRED_CLASSES = ["blocks>=2", "block.size=117", "block.size=116", "entry.would-make-118", "oversize.first", "oversize.middle", "oversize.last", "delkey", "delkey.with-bytes-content", "content-type=bytearray", "content-type=memoryview", "delval", "extra-blocks", "extra-as=generator", "extra-as=iterator",
+REQUIRED_CLASSES = ["edited-created-component=tag-added", "edited-created-component=tag-removed", "blocks>=2", "block.size=117", "block.size=116", "entry.would-make-118", "oversize.first", "oversize.middle", "oversize.last", "delkey", "delkey.with-bytes-content", "content-type=bytearray", "content-type=memoryview", "delval", "extra-blocks", "extra-as=generator", "extra-as=iterator",
                     "unframeable"]
 
 LIMIT = 117
@@ -130,6 +130,26 @@ def check(case, rec):
     want_desc = {0xC3: b"\x03", 0xC2: b"\x02", 0xC1: b"\x03", 0xC5: b"\x01"}
     if desc != want_desc or not comp.encrypt_by_session_key or comp.actual_len != len(want_blob):
         raise Violation("configuration component tags/flags: %r enc=%r actual_len=%r" % (desc, comp.encrypt_by_session_key, comp.actual_len))
+    # the component set_config created is the caller's object from now on: whatever the caller does to ITS description (a later tool stage
+    # adds a tag, clears the reboot request, drops a tag) must not show in any configuration component created afterwards - in the same file
+    # or in another one
+    how_edit = (len(want_blob) + len(cfg)) % 3
+    if how_edit == 0:
+        comp.description[0xC8] = b"\x07\x07"
+    elif how_edit == 1:
+        comp.description[0xC5] = b"\x00"
+    else:
+        del comp.description[0xC1]
+    rec.cls("edited-created-component=" + ("tag-added", "tag-changed", "tag-removed")[how_edit])
+    for where, target in (("another file", sut.Bf3File({}, [])), ("the same file", f)):
+        try:
+            target.set_config(cfg, list(extra))
+        except Exception as e:
+            raise Violation("second set_config (%s) raised %s: %s" % (where, type(e).__name__, e))
+        c2 = target.components[-1]
+        if dict(c2.description) != want_desc or list(c2.description) != list(want_desc) or bytes(c2.blob) != want_blob:
+            raise Violation("after the caller edited the description of the component an earlier set_config created, set_config on %s creates a component with tags %r (expected %r)" % (
+                where, dict(c2.description), want_desc))
     # the component LIST handed to the constructor is the caller's: two files built from one list object stay independent of each other
     shared = [sut.Bf3Component({0xC3: b"\x02"}, b"fw")]
     fa, fb = sut.Bf3File({}, shared), sut.Bf3File({}, shared)
